@@ -48,6 +48,7 @@ type Config struct {
 
 	// Result control
 	Limit       int            `json:"limit"`
+	HasLimit    bool           `json:"hasLimit"` // a LIMIT clause was written; makes LIMIT 0 (no rows) distinct from no LIMIT
 	Projections []Projection   `json:"projections"`
 	OrderBy     []OrderByField `json:"orderBy"` // ORDER BY sort keys, applied per emit batch
 
